@@ -670,8 +670,19 @@ pub fn run_c06(sim: &Sim, prop: &str, tier: Tier) -> Outcome {
     if let Err(e) = clean_packet_items(kind, &p1, Tag::Probe(1), &mut items) {
         return enc_fail(e);
     }
+    // line noise may sit between any two frames, also right before, between and after the probes
+    let noisy_probes = kind.is_bytes() && sim.chance(20);
+    if noisy_probes && sim.flag() {
+        let n = 1 + sim.draw(4) as usize;
+        items.push(Item { unit: Unit::Noise(rand_bytes(sim, n, true)), tag: Tag::Probe(2), what: "noise" });
+    }
     if let Err(e) = clean_packet_items(kind, &p2, Tag::Probe(2), &mut items) {
         return enc_fail(e);
+    }
+    if noisy_probes {
+        let n = 1 + sim.draw(6) as usize;
+        items.push(Item { unit: Unit::Noise(rand_bytes(sim, n, true)), tag: Tag::Probe(2), what: "trailing-noise" });
+        sim.count("noise_after_last_frame");
     }
 
     let loaded = load(sim, &wire, &items);
